@@ -424,10 +424,21 @@ Definition client_authentication (cx : actx) (ep : endpoint) (rq : request) (now
   end.
 
 (* ------------------------------------------------------------------ parse_request *)
+(* [client] is the client id parse_request passes to verify_request / do_post_parse_request (the local
+   _client_id); [req_client] is the client_id parameter the parsed REQUEST carries at that moment, i.e. the
+   identity every process_request (token helpers, revocation, introspection, PAR) acts under *)
 Inductive parsed :=
-| PGeneric (client : option pystr) (authenticated : bool)   (* Endpoint.parse_request before verify/post-parse *)
-| PUserinfo (client : option pystr) (tok : pystr)           (* UserInfo.parse_request handing on client and token *)
+| PGeneric (client : option pystr) (req_client : option pystr) (authenticated : bool)
+                                                            (* Endpoint.parse_request before verify/post-parse *)
+| PUserinfo (client : option pystr) (req_client : option pystr) (tok : pystr)
+                                                            (* UserInfo.parse_request handing on client and token *)
 | PUserinfoError.                                           (* error_cls(error="invalid_token") *)
+
+(* req["client_id"] = c *)
+Definition set_client_id (rq : request) (c : pystr) : request :=
+  {| r_hdr := r_hdr rq; r_client_id := Some c; r_client_secret := r_client_secret rq;
+     r_access_token := r_access_token rq; r_assertion := r_assertion rq; r_request := r_request rq;
+     r_authflag := r_authflag rq |}.
 
 Definition authenticating (m : meth) : bool := negb (meth_in m [MPublic; MNone]).
 
@@ -441,7 +452,8 @@ Definition parse_request (cx : actx) (ep : endpoint) (rq : request) (now : Z) (j
     | Ok None => (Err KeyError, j1)                          (* auth_info["client_id"] *)
     | Ok (Some ai) => match ai_token ai with
                       | None => (Err KeyError, j1)           (* auth_info["token"] *)
-                      | Some t => (Ok (PUserinfo (ai_client ai) t), j1)
+                      (* request["client_id"] = auth_info["client_id"]; request["access_token"] = auth_info["token"] *)
+                      | Some t => (Ok (PUserinfo (ai_client ai) (ai_client ai) t), j1)
                       end
     end
   else
@@ -450,11 +462,15 @@ Definition parse_request (cx : actx) (ep : endpoint) (rq : request) (now : Z) (j
     | Unmodelled => (Unmodelled, j1)
     (* "authenticated" is deleted from the request before client authentication (whatever r_authflag
        says) and set only for an authenticating method that named a client *)
-    | Ok None => (Ok (PGeneric (r_client_id rq) false), j1)
+    | Ok None => (Ok (PGeneric (r_client_id rq) (r_client_id rq) false), j1)    (* _client_id = req.get("client_id") *)
     | Ok (Some ai) =>
         match ai_client ai with
-        | Some ((_ :: _) as c) => (Ok (PGeneric (Some c) (authenticating (ai_method ai))), j1)
-        | _ => (Ok (PGeneric (r_client_id rq) false), j1)
+        | Some ((_ :: _) as c) =>
+            (* req["client_id"] = _client_id: whatever client_id the body carried is OVERWRITTEN with the
+               authenticated one; then req["authenticated"] = True for an authenticating method *)
+            let rq' := set_client_id rq c in
+            (Ok (PGeneric (Some c) (r_client_id rq') (authenticating (ai_method ai))), j1)
+        | _ => (Ok (PGeneric (r_client_id rq) (r_client_id rq) false), j1)
         end
     end.
 
@@ -501,8 +517,8 @@ Definition ai_eqb (a b : auth_info) : bool :=
   && opt_str_eqb (ai_token a) (ai_token b).
 Definition parsed_eqb (a b : parsed) : bool :=
   match a, b with
-  | PGeneric c x, PGeneric c' x' => opt_str_eqb c c' && Bool.eqb x x'
-  | PUserinfo c t, PUserinfo c' t' => opt_str_eqb c c' && str_eqb t t'
+  | PGeneric c rc x, PGeneric c' rc' x' => opt_str_eqb c c' && opt_str_eqb rc rc' && Bool.eqb x x'
+  | PUserinfo c rc t, PUserinfo c' rc' t' => opt_str_eqb c c' && opt_str_eqb rc rc' && str_eqb t t'
   | PUserinfoError, PUserinfoError => true
   | _, _ => false
   end.
